@@ -48,6 +48,14 @@ class World:
         self._saved = (cg.time, mu.timeit, ml.Template)
         cg.time = _T
         mu.timeit = _T
+        self.unreadable = set()
+        self._read_file = mu.read_file
+
+        def read_file(path, mode="rb"):
+            if os.path.abspath(path) in w.unreadable:
+                raise PermissionError(13, "Permission denied (simulated)", path)
+            return w._read_file(path, mode)
+        mu.read_file = read_file
         self.root = tempfile.mkdtemp(prefix="mv-lk-", dir=base)
         self.dirs = []
         for i in range(ndirs):
@@ -78,6 +86,7 @@ class World:
 
     def close(self):
         self.cg.time, self.mu.timeit, self.ml.Template = self._saved
+        self.mu.read_file = self._read_file
         shutil.rmtree(self.root, ignore_errors=True)
 
     # ---- projection
@@ -99,20 +108,27 @@ class World:
         self.ticks += 1
         return {"ev": "tick"}
 
-    def write(self, d, u, ok):
+    def write(self, d, u, kind):
+        if kind is True or kind is False:
+            kind = "ok" if kind else "broken"
         self.ver += 1
         p = os.path.join(self.dirs[d - 1], u)
         with open(p, "w") as f:
-            f.write(("%s-v%d" % (u, self.ver)) if ok else "${ broken")
+            f.write("${ broken" if kind == "broken" else ("%s-v%d" % (u, self.ver)))
+        if kind == "unreadable":
+            self.unreadable.add(os.path.abspath(p))
+        else:
+            self.unreadable.discard(os.path.abspath(p))
         mt = self.ticks // TPS
         os.utime(p, (OLD_ATIME, BASE + mt))
-        return {"ev": "write", "d": d, "u": u, "ok": ok, "ver": self.ver, "mt": mt}
+        return {"ev": "write", "d": d, "u": u, "kind": kind, "ver": self.ver, "mt": mt}
 
     def delete(self, d, u):
         p = os.path.join(self.dirs[d - 1], u)
         if not os.path.exists(p):
             return None
         os.remove(p)
+        self.unreadable.discard(os.path.abspath(p))
         return {"ev": "delete", "d": d, "u": u}
 
     def _classify(self, e, ex):
@@ -123,6 +139,8 @@ class World:
             e["res"] = "lookup_exc"
         elif isinstance(ex, (exc.SyntaxException, exc.CompileException)):
             e["res"] = "compile_error"
+        elif isinstance(ex, OSError):
+            e["res"] = "os_error"
         else:
             e["res"] = "exc:" + type(ex).__name__
 
@@ -189,7 +207,7 @@ class World:
 
 
 # --------------------------------------------------------------------------- V: record histories
-OPS = ["tick", "tick", "write", "write", "write", "break", "delete", "get", "get", "get", "get", "get", "has", "put", "puttmpl", "putfile"]
+OPS = ["tick", "tick", "write", "write", "write", "break", "unread", "delete", "get", "get", "get", "get", "get", "has", "put", "puttmpl", "putfile"]
 
 
 # short scripted sequences spliced into the random histories so that multi-step situations (a reload
@@ -204,6 +222,8 @@ MACROS = [
     [("write", "d", "u"), ("get", "u"), ("tick",), ("tick",), ("break", "d", "u"), ("get", "u"), ("write", "d", "u"), ("get", "u")],
     [("put", "u"), ("write", "d", "u"), ("get", "u"), ("tick",), ("tick",), ("get", "u")],
     [("write", "d", "u"), ("write", "d", "v"), ("get", "u"), ("get", "v"), ("get", "u"), ("tick",), ("get", "v"), ("get", "u")],
+    [("unread", "d", "u"), ("get", "u"), ("has", "u"), ("write", "d", "u"), ("get", "u")],
+    [("write", "d", "u"), ("get", "u"), ("tick",), ("tick",), ("unread", "d", "u"), ("get", "u"), ("get", "u"), ("write", "d", "u"), ("get", "u")],
 ]
 
 
@@ -214,8 +234,8 @@ def record(rng, n_ops, ndirs, uris, size, fsc, moddir, allow_put, base=None):
     def do(op, u, d, v=None):
         if op == "tick":
             ev.append(w.tick())
-        elif op in ("write", "break"):
-            ev.append(w.write(d, u, op == "write"))
+        elif op in ("write", "break", "unread"):
+            ev.append(w.write(d, u, {"write": "ok", "break": "broken", "unread": "unreadable"}[op]))
         elif op == "delete":
             e = w.delete(d, u)
             if e:
@@ -239,7 +259,7 @@ def record(rng, n_ops, ndirs, uris, size, fsc, moddir, allow_put, base=None):
                     a = [roles[x] for x in step[1:]]
                     if step[0] == "tick":
                         do("tick", None, None)
-                    elif step[0] in ("write", "break", "delete"):
+                    elif step[0] in ("write", "break", "unread", "delete"):
                         do(step[0], a[1], a[0])
                     elif step[0] == "putfile":
                         do("putfile", a[0], a[1], a[2])
@@ -272,7 +292,7 @@ def replay_behaviour(steps, ndirs, size, fsc, moddir, base=None):
                 w.tick()
                 continue
             if op == "write":
-                e = w.write(last["d"], last["u"], last["ok"])
+                e = w.write(last["d"], last["u"], last["kind"])
                 exp = st["fs"][last["d"] - 1][last["u"]] if isinstance(st["fs"], list) else st["fs"][last["d"]][last["u"]]
                 if e["ver"] != exp["ver"] or e["mt"] != exp["mt"]:
                     return {"step": idx, "clause": "write-args", "expected": exp, "observed": e}
@@ -287,7 +307,7 @@ def replay_behaviour(steps, ndirs, size, fsc, moddir, base=None):
                 obs = {k: e[k] for k in exp}
             elif op == "has":
                 e = w.has(last["u"])
-                m = {"tmpl": "true", "toplevel_exc": "false", "lookup_exc": "false", "compile_error": "compile_error"}
+                m = {"tmpl": "true", "toplevel_exc": "false", "lookup_exc": "false", "compile_error": "compile_error", "os_error": "os_error"}
                 exp = {"res": m[last["res"]], "keys": keys, "built": st["built"]}
                 obs = {k: e[k] for k in exp}
             elif op in ("put", "puttmpl"):
@@ -352,7 +372,7 @@ def check(run):
             run.spec_violation(res)
         for a, (d, g) in res.coverage.items():
             acts[a] = acts.get(a, 0) + g
-    for a in ("Tick", "WriteFile", "DeleteFile", "Get", "Has", "Put"):
+    for a in ("Tick", "WriteFile", "DeleteFile", "Get", "Has", "Put", "PutFile"):
         if not acts.get(a):
             raise MachineryError("vacuous model checking: action %s never taken (%s)" % (a, acts))
     run.extra["action_coverage"] = acts
@@ -394,7 +414,7 @@ def check(run):
 
     # ------------------------------------------------------------------ 1b. witnesses: TLC finds a behaviour reaching every branch; replay it
     wit = []   # (name, invariant, WB, ndirs, uris, size, fsc, moddir, allow_put)
-    for b in ("hit", "vanished", "reload", "reload-broken", "miss", "load", "load-broken"):
+    for b in ("hit", "vanished", "reload", "reload-broken", "reload-unreadable", "miss", "load", "load-broken", "load-unreadable"):
         wit.append(("w-" + b, "NotWBranch", b, 2, ["a", "b"], 1, True, False, False))
     wit.append(("w-hit-nocheck", "NotWBranch", "hit-nocheck", 1, ["a", "b"], 0, False, False, False))
     for b in ("load-reuse",):
@@ -476,6 +496,7 @@ def check(run):
         (3, ["a", "b", "c", "d", "e", "f"], 2, True, False, 80, 40),
         (2, ["a", "b", "c"], 1, False, False, 40, 30),
         (1, ["a", "b", "c", "d", "e", "f", "g", "h"], 2, True, True, 50, 40),
+        (2, ["a", "b", "c", "d", "e", "f", "g", "h", "i", "j", "k"], 4, True, False, 30, 60),
     ]
     if thorough:
         groups = [(nd, u, s, f, m, n * 6, ops) for (nd, u, s, f, m, n, ops) in groups]
